@@ -89,6 +89,7 @@ type pathState struct {
 	condWaitHook    value
 	recursionLimit  int
 	condSignals     int
+	labelFilter     func(string) bool
 	condBroadcasts  int
 	condWaits       int
 	fnsCalled       map[*ssa.Function]bool
@@ -609,6 +610,11 @@ func (in *Interp) assume(c T) {
 // check verifies an assertion: PC && !c must be unsat.
 func (in *Interp) check(c T, label string, pos string) {
 	p := in.path
+	if p.labelFilter != nil && !p.labelFilter(label) {
+		// an assertion of another property: not this check's business (and it
+		// must not end the path before this property's assertions are reached)
+		return
+	}
 	p.asserts[label]++
 	if c.IsTrue() {
 		return
